@@ -338,6 +338,13 @@ impl<D: DependencyProvider, RT: AsyncRuntime> Solver<D, RT> {
                 .assigned_value(additional_var)
                 .is_none()
             {
+                // A soft requirement is requested directly and not through a
+                // version set, so it has not necessarily been registered with
+                // the other candidates of its package. Do so now to ensure that
+                // at most one solvable per package ends up in the solution.
+                let name_id = self.provider().solvable_name(additional);
+                self.state.forbid_multiple(name_id, additional_var);
+
                 self.run_sat(additional.into(), &root_dependencies)?;
             }
         }
@@ -1436,6 +1443,34 @@ impl<D: DependencyProvider, RT: AsyncRuntime> Solver<D, RT> {
 }
 
 impl SolverState {
+    /// Adds clauses that forbid `variable` from being selected together with
+    /// any other variable already tracked for the package `name_id`.
+    fn forbid_multiple(&mut self, name_id: NameId, variable: VariableId) {
+        let Self {
+            forbidden_clauses_added,
+            clauses,
+            watches,
+            variable_map,
+            ..
+        } = self;
+        forbidden_clauses_added.entry(name_id).or_default().add(
+            variable,
+            |a, b, positive| {
+                let (watched_literals, kind) = WatchedLiterals::forbid_multiple(
+                    a,
+                    if positive { b.positive() } else { b.negative() },
+                    name_id,
+                );
+                let clause_id = clauses.alloc(watched_literals, kind);
+                let watched_literals = clauses.watched_literals[clause_id.to_usize()]
+                    .as_mut()
+                    .expect("forbid clause must have watched literals");
+                watches.start_watching(watched_literals, clause_id);
+            },
+            || variable_map.alloc_forbid_multiple_variable(name_id),
+        );
+    }
+
     /// Returns the solvables that the solver has chosen to include in the
     /// solution so far.
     fn chosen_solvables(&self) -> impl Iterator<Item = SolvableId> + '_ {
